@@ -15,7 +15,7 @@ theorem layoutOK_of_render' (cc : CharClass) (st : WSt) (cm : Bool) (columns : N
     (h : (Wd.list st cm columns cw spacing kp u nw items).render cc w = .ok r)
     (sh : ListShape cc cm columns cw spacing kp items w r items' labels)
     (hfit : ∀ i, (hi : i < items.length) →
-      RespectsWidth cc items[i] (usedWidth cw columns spacing w - labelLen labels i)) :
+      RespectsWidth cc items[i] (usedWidth cw columns spacing w - kpLabelLen kp i)) :
     LayoutOK (usedWidth cw columns spacing w) labels (items'.map Wd.lines) := by
   by_cases hne : items = []
   · have hg : (items'.map Wd.lines).length = 0 := by rw [shape_grids_length sh, hne]; rfl
@@ -61,7 +61,7 @@ theorem place_items_render (hkp : kpPlain kp)
     (h : (Wd.list st cm columns cw spacing kp u nw items).render cc w = .ok r)
     (sh : ListShape cc cm columns cw spacing kp items w r items' labels)
     (hfit : ∀ i, (hi : i < items.length) →
-      RespectsWidth cc items[i] (usedWidth cw columns spacing w - labelLen labels i))
+      RespectsWidth cc items[i] (usedWidth cw columns spacing w - kpLabelLen kp i))
     (i : Nat) (hi : i < items'.length) (a b : Nat) (ha : a < items'[i].lines.length)
     (hb : b < (items'[i].lines[a]).length) :
     cell r.lines
@@ -90,7 +90,7 @@ theorem place_labels_render (hkp : kpPlain kp)
     (h : (Wd.list st cm columns cw spacing kp u nw items).render cc w = .ok r)
     (sh : ListShape cc cm columns cw spacing kp items w r items' labels)
     (hfit : ∀ i, (hi : i < items.length) →
-      RespectsWidth cc items[i] (usedWidth cw columns spacing w - labelLen labels i))
+      RespectsWidth cc items[i] (usedWidth cw columns spacing w - kpLabelLen kp i))
     (i : Nat) (hi : i < items.length) (row : List Char) (hrow : labelBuf labels i = [row])
     (b : Nat) (hb : b < row.length) :
     cell r.lines
